@@ -12,7 +12,7 @@ From Coq Require Import List NArith ZArith Bool.
 From Coq.Strings Require Import Byte.
 Require Import GV.Base.Res GV.Base.Byt GV.Base.Ints GV.Model.Leb GV.Model.Prim
                GV.Spec.LebSpec GV.Spec.FormSpec GV.Model.Attr GV.Spec.Forest GV.Model.AbbrevRd
-               GV.Model.DieRd GV.Proofs.AttrProofs GV.Proofs.AbbrevRdProofs GV.Proofs.DieRdProofs.
+               GV.Model.DieRd GV.Proofs.AttrProofs GV.Proofs.AbbrevRdProofs GV.Proofs.DieRdProofs GV.Proofs.NavProofs.
 Import ListNotations.
 Local Open Scope N_scope.
 
@@ -212,6 +212,150 @@ Proof.
       vm_compute; intros H; (reflexivity || discriminate H).
   - vm_compute. reflexivity.
   - vm_compute. reflexivity.
+Qed.
+
+(* ------------------------------------------------------------------ *)
+(* (5) next_sibling: from any entry, iterating next_sibling yields exactly its following siblings —
+       whether the entries skipped on the way carry a DW_AT_sibling (fast path: seek_forward to the
+       pointer, depth kept) or not (slow path: read through the subtree), in any mixture: the trees
+       are arbitrary, ISib items may sit on any subset of entries at any attribute position.
+       The cursor is about to read [t]; its following siblings are [ts]; after the list comes the end
+       of the input or the null entry closing the list. Any depth d (relative start), any offset. *)
+
+Theorem sibling_correct : forall dbg e tbl codes t ts after off d E c,
+  addr_size_ok e ->
+  Forall (fun t => tbl_get tbl (t_code codes t) = Some (t_abbrev codes t)) (forest_nodes (t :: ts)) ->
+  forest_ok codes e (t :: ts) -> sibs_fit codes off (t :: ts) ->
+  (after = [] \/ exists more, after = x00 :: more) ->
+  let input := on_list (enc_tree codes (be e)) (tree_size codes) off (t :: ts) ++ after in
+  c_raw c = mkRaw input E d -> E = off + nlen input -> E < two64 ->
+  (- 9223372036854775808 + Z.of_N (nlen input) <= d /\ d + Z.of_N (nlen input) < 9223372036854775808)%Z ->
+  exists c1, next_entry dbg e tbl c = Ok (SOk true c1) /\ c_cur c1 = root_die codes off d t /\
+             siblings_all (cursor_fuel c1) dbg e tbl c1 = Ok (roots codes (off + tree_size codes t) d ts, None).
+Proof. exact NavProofs.sibling_correct. Qed.
+
+(* the children of ex_root: ex_k1 (no sibling pointer), ex_k2 (children flag, empty list), ex_k1; the
+   list is closed by a null entry *)
+Example sibling_correct_ex :
+  let kids := [ex_k1; ex_k2; ex_k1] in
+  let input := on_list (enc_tree ex_codes false) (tree_size ex_codes) 15 kids ++ [x00; x00] in
+  forest_ok ex_codes ex_enc kids /\ sibs_fit ex_codes 15 kids /\
+  input = [x03; x2a;  x85;x80;x80;x80;x10; x00;  x03; x2a;  x00; x00]%byte /\
+  map d_offset (roots ex_codes (15 + tree_size ex_codes ex_k1) 1 [ex_k2; ex_k1]) = [17; 23].
+Proof.
+  destruct forest_ex as (_ & Hok & _). unfold forest_ok in *. cbn [ex_forest forest_nodes flat_map] in Hok.
+  rewrite app_nil_r in Hok. change (nodes ex_root) with (ex_root :: forest_nodes [ex_k1; ex_k2; ex_k1]) in Hok.
+  apply Forall_cons_iff in Hok. destruct Hok as [_ Hok].
+  split; [exact Hok|]. split; [|split; vm_compute; reflexivity].
+  unfold sibs_fit.
+  replace (on_list (placed ex_codes) (tree_size ex_codes) 15 [ex_k1; ex_k2; ex_k1])
+    with [(15, ex_k1); (17, ex_k2); (23, ex_k1)] by (vm_compute; reflexivity).
+  repeat (apply Forall_cons); try apply Forall_nil; unfold node_fits; cbn [fst snd t_items ex_k1 ex_k2];
+    repeat (apply Forall_cons); try apply Forall_nil; exact I.
+Qed.
+
+(* ------------------------------------------------------------------ *)
+(* (6) positioned reads and the tree iterator, for EVERY entry (o, t) of the unit:
+       UnitHeader::entry(o) is that entry (depth 0); a cursor created by entries_at_offset(o) reports
+       the entry and everything after it in preorder with depths relative to the entry; the tree
+       created by entries_tree(Some o) rebuilds exactly the entry's subtree (children lists in order) *)
+
+Theorem entry_at_offset : forall dbg bigend types uoff h codes f pad tbl o t,
+  let e := mkEnc (uh_version h) (uh_fmt64 h) (uh_asize h) bigend in
+  let body := enc_forest codes bigend (header_len h) f pad in
+  let hdr := mkUnit e (unit_length_of bigend h (nlen body)) (uh_type h) (uh_abbrev_off h) types uoff body in
+  addr_size_ok e -> header_len h + nlen body < two63 ->
+  Forall (fun t => tbl_get tbl (t_code codes t) = Some (t_abbrev codes t)) (forest_nodes f) ->
+  forest_ok codes e f -> sibs_fit codes (header_len h) f ->
+  In (o, t) (on_list (placed codes) (tree_size codes) (header_len h) f) ->
+  entry_at dbg hdr tbl o = Ok (root_die codes o 0 t) /\
+  (exists p1 p2 dd c,
+      preorder codes (header_len h) 0 f = p1 ++ root_die codes o dd t :: p2 /\
+      entries_at_offset dbg hdr o = Ok c /\
+      dfs_all (cursor_fuel c) dbg e tbl c =
+        Ok (map (fun d => mkDie (d_offset d) (d_depth d - dd) (d_tag d) (d_children d) (d_attrs d))
+                (root_die codes o dd t :: p2), None)) /\
+  (exists ts, entries_tree dbg hdr (Some o) = Ok ts /\
+              walk_tree dbg e tbl ts = Ok (Some (dtree_of codes 0 o t), None)).
+Proof.
+  intros dbg bigend types uoff h codes f pad tbl o t e body hdr He Hlen Hc Hok Hfit Hin. split; [|split].
+  - exact (NavProofs.entry_at_offset dbg bigend types uoff h codes f pad tbl He Hlen Hc Hok Hfit o t Hin).
+  - exact (NavProofs.dfs_from_offset dbg bigend types uoff h codes f pad tbl He Hlen Hc Hok Hfit o t Hin).
+  - exact (NavProofs.tree_is_forest dbg bigend types uoff h codes f pad tbl He Hlen Hc Hok Hfit o t Hin).
+Qed.
+
+(* tree_is_forest at the root: entries_tree(None) = entries_tree(Some root_offset) by definition *)
+Theorem tree_is_forest : forall dbg bigend types uoff h codes t f pad tbl,
+  let e := mkEnc (uh_version h) (uh_fmt64 h) (uh_asize h) bigend in
+  let body := enc_forest codes bigend (header_len h) (t :: f) pad in
+  let hdr := mkUnit e (unit_length_of bigend h (nlen body)) (uh_type h) (uh_abbrev_off h) types uoff body in
+  addr_size_ok e -> header_len h + nlen body < two63 ->
+  Forall (fun t => tbl_get tbl (t_code codes t) = Some (t_abbrev codes t)) (forest_nodes (t :: f)) ->
+  forest_ok codes e (t :: f) -> sibs_fit codes (header_len h) (t :: f) ->
+  exists ts, entries_tree dbg hdr (Some (header_len h)) = Ok ts /\
+             walk_tree dbg e tbl ts = Ok (Some (dtree_of codes 0 (header_len h) t), None).
+Proof.
+  intros dbg bigend types uoff h codes t f pad tbl e body hdr He Hlen Hc Hok Hfit.
+  apply (NavProofs.tree_is_forest dbg bigend types uoff h codes (t :: f) pad tbl He Hlen Hc Hok Hfit).
+  rewrite DieRdProofs.on_list_cons. apply in_or_app. left. rewrite DieRdProofs.placed_unfold. left. reflexivity.
+Qed.
+
+Example entry_at_offset_ex :
+  In (17, ex_k2) (on_list (placed ex_codes) (tree_size ex_codes) (header_len ex_header) ex_forest) /\
+  root_die ex_codes 17 0 ex_k2 = mkDie 17 0 52 true [].
+Proof. split; [vm_compute; tauto|reflexivity]. Qed.
+
+(* ------------------------------------------------------------------ *)
+(* (7) no step panics or exhausts the model's fuel, on ANY input, in both build modes (feeds C01).
+       NavProofs.cursor_ok / tree_ok is the reader invariant "remaining input <= end offset, and
+       |depth| + remaining input < 2^63"; every cursor the API creates over a slice shorter than
+       2^63 bytes satisfies it (cursor_invariant_holds) and every step preserves it. *)
+
+Theorem no_panic : forall dbg e tbl,
+  (forall bs, parse_abbrevs dbg bs <> Panic /\ parse_abbrevs dbg bs <> OutOfFuel) /\
+  (forall sec off, abbreviations_at dbg sec off <> Panic /\ abbreviations_at dbg sec off <> OutOfFuel) /\
+  (forall bigend types uoff bs,
+     parse_unit_header bigend types uoff bs <> Panic /\ parse_unit_header bigend types uoff bs <> OutOfFuel) /\
+  (forall bigend types sec, nlen sec < two64 ->
+     units dbg bigend types sec <> Panic /\ units dbg bigend types sec <> OutOfFuel) /\
+  (forall c, NavProofs.cursor_ok c ->
+     match next_entry dbg e tbl c with
+     | Ok (SOk _ c') | Ok (SErr _ c') => NavProofs.cursor_ok c' | _ => False end /\
+     match next_dfs (cursor_fuel c) dbg e tbl c with
+     | Ok (SOk _ c') | Ok (SErr _ c') => NavProofs.cursor_ok c' | _ => False end /\
+     match next_sibling (cursor_fuel c) dbg e tbl c with
+     | Ok (SOk _ c') | Ok (SErr _ c') => NavProofs.cursor_ok c' | _ => False end) /\
+  (forall t, NavProofs.tree_ok t ->
+     match tree_root dbg e tbl t with Ok t' => NavProofs.tree_ok t' | Err _ => True | _ => False end /\
+     forall depth, ((d_depth (tr_entry t) < depth)%Z -> (d_depth (tr_entry t) + 1 = depth)%Z) ->
+       match tree_next (tree_fuel t) dbg e tbl depth t with
+       | Ok (TOk _ t') | Ok (TErr _ t') => NavProofs.tree_ok t' | _ => False end).
+Proof.
+  intros dbg e tbl. split; [exact (AbbrevRdProofs.parse_abbrevs_res dbg)|].
+  split; [exact (AbbrevRdProofs.abbreviations_at_res dbg)|].
+  split; [exact NavProofs.parse_unit_header_res|].
+  split; [exact (NavProofs.units_total dbg)|]. split.
+  - intros c Hc. split; [|split].
+    + pose proof (NavProofs.next_entry_inv dbg e tbl c Hc) as H.
+      destruct (next_entry dbg e tbl c) as [[[|] c'|x c']| | |]; tauto.
+    + pose proof (NavProofs.next_dfs_inv dbg e tbl (cursor_fuel c) c Hc ltac:(unfold cursor_fuel; apply le_n)) as H.
+      destruct (next_dfs (cursor_fuel c) dbg e tbl c) as [[o c'|x c']| | |]; tauto.
+    + unfold next_sibling. destruct (current c); [|exact Hc].
+      exact (NavProofs.sibling_loop_inv dbg e tbl (d_depth d) (cursor_fuel c) c Hc ltac:(unfold cursor_fuel; apply le_n)).
+  - intros t Ht. split; [exact (NavProofs.tree_root_total dbg e tbl t Ht)|].
+    intros depth Hreq. exact (NavProofs.tree_next_total dbg e tbl depth t Ht Hreq).
+Qed.
+
+Theorem cursor_invariant_holds : forall dbg input offset c,
+  offset + nlen input < two63 -> cursor_new dbg input offset = Ok c -> NavProofs.cursor_ok c.
+Proof. exact NavProofs.cursor_new_ok. Qed.
+
+Example no_panic_ex :
+  NavProofs.cursor_ok (mkCur (mkRaw [xff; x00; x01]%byte 100 (-7)) null_die) /\
+  parse_abbrevs true [x80]%byte = Err EUnexpectedEof.
+Proof.
+  split; [|reflexivity]. unfold NavProofs.cursor_ok, NavProofs.state_ok, DieRdProofs.depth_ok.
+  cbn [c_raw c_cur r_in r_end r_depth null_die d_depth]. vm_compute. intuition discriminate.
 Qed.
 
 (* statement pins *)
